@@ -24,6 +24,7 @@ def run(ctx: Ctx):
     )
     ctx.not_decided = ["floating point rounding; non-negativity follows from the closed form and is not separately checked"]
     identity(ctx)
+    non_negative(ctx)
     variance_blocks(ctx)
     construction_sites(ctx)
     std_err(ctx)
@@ -65,6 +66,34 @@ def identity(ctx: Ctx):
     sub0 = _Sub({"Nn": ast.Constant(value=0), "Ni": ast.parse("Nt-p*Nt", mode="eval").body, "Np": ast.parse("p*Nt", mode="eval").body}).visit(copy.deepcopy(body))
     v, cnf, snf, _ = equal(sub0, "p*(1-p)")
     ctx.ob("variance-identity", where + " [Nn:=0, Np:=p*Nt]", cnf, snf, v, "ordinary cells: p(1-p)")
+
+
+def non_negative(ctx: Ctx):
+    """"They are non-negative": the three-term variance is a sum of squares weighted by the counts Np, Nn, Ni.  Np and Nn are
+    sums of counts; Ni is the DIFFERENCE Nt - Np - Nn of float sums and can come out a rounding error below zero (a
+    subtotal spanning every category: p = 1, Ni = -1 ulp): the variance is then about -2e-16 and its square root NaN.
+    The ignored count must be clamped at zero where it is computed or where it is used."""
+    ci = ctx.repo.cls(MM, "_ProportionVariances")
+    where = f"{MM}::_ProportionVariances._calc_var [Ni]"
+    m = ctx.repo.lookup(ci, "_calc_var")
+    ign = ctx.repo.lookup(ci, "_count_ignored")
+    if m is None or ign is None:
+        ctx.undecided("variance.non-negative", where, "members not found", "")
+        return
+    is_difference = any(isinstance(n, ast.BinOp) and isinstance(n.op, ast.Sub) for n in ast.walk(ign.node))
+
+    def clamped(fn_node, name=None):
+        for n in ast.walk(fn_node):
+            if isinstance(n, ast.Call) and u(n.func) in ("np.maximum", "np.clip", "np.fmax") and any(isinstance(a, ast.Constant) and a.value == 0 for a in n.args):
+                if name is None or any(isinstance(x, ast.Name) and x.id == name for a in n.args for x in ast.walk(a)):
+                    return True
+        return False
+
+    params = [p_ for p_ in m.params if p_ not in ("self", "cls")]
+    ni = params[3] if len(params) == 5 else "Ni"
+    ok = (not is_difference) or clamped(ign.node) or clamped(m.node, ni)
+    ctx.ob("variance.non-negative", where, "the ignored count is clamped at zero" if ok else "Ni = Nt - Np - Nn enters the variance as computed", "a difference of float sums is clamped at zero before it weights a square", ok,
+           "an all-categories subtotal of a weighted table gets variance -2e-16: standard deviation, standard error and margin of error are NaN although the proportion (1) and the base are defined")
 
 
 def variance_blocks(ctx: Ctx):
